@@ -55,4 +55,88 @@ example : let fs0 : FS := ⟨[⟨[7], [], 0o644⟩], ⟨some 0, none⟩, [], non
     fs0.WF ∧ fs0.hist = [] ∧ SafeTrace (saverTrace {} fs0 ⟨[([1, 2], 0), ([3], 1)], false⟩) = true ∧
     (exec fs0 (saverTrace {} fs0 ⟨[([1, 2], 0), ([3], 1)], false⟩)).isSome = true := by decide
 
+/-- **The saver is accepted.**  For every configuration, initial state and body (any list of writes
+    with any amount pushed through by the runtime, raising or not) the trace emitted by the
+    transliterated `AtomicSaver` satisfies `SafeTrace`. -/
+theorem saver_emits_safeTrace (cfg : Cfg) (fs : FS) (body : Body) :
+    SafeTrace (saverTrace cfg fs body) = true := saver_safe cfg fs body
+
+/-- hence the saver itself is crash safe at every point of every save (both crash semantics) -/
+theorem saver_crash_safe (cfg : Cfg) (fs0 : FS) (body : Body) (hwf : fs0.WF) (hh : fs0.hist = [])
+    (hsy : DestSynced fs0) :
+    ∀ p q fs, saverTrace cfg fs0 body = p ++ q → exec fs0 p = some fs →
+      (fs.destAfterProcCrash = fs0.readDest ∨ fs.destAfterProcCrash = some (body.writes.map (·.1)).flatten) ∧
+      (∀ r, fs.PowerDest r → r = fs0.readDest ∨ r = some (body.writes.map (·.1)).flatten) ∧
+      (publishes p = false → fs.destAfterProcCrash = fs0.readDest ∧ ∀ r, fs.PowerDest r → r = fs0.readDest) := by
+  intro p q fs ht hx
+  have := safeTrace_crash_safe fs0 _ hwf hh hsy (saver_safe cfg fs0 body) p q fs ht hx
+  rw [allWrites_saverTrace] at this
+  exact ⟨this.1, this.2.1, this.2.2.1⟩
+
+/-- **Normal exit.**  When nothing is in the way (the part name is free or `overwrite_part` is set;
+    the destination may be replaced or is absent) and the block does not raise, the whole trace
+    executes and leaves exactly the concatenation of the writes at the destination, fully durable,
+    and no part file. -/
+theorem normal_exit (cfg : Cfg) (fs : FS) (body : Body) (hh : fs.hist = [])
+    (hp : fs.dir.part = none ∨ cfg.overwritePart = true)
+    (hd : cfg.overwrite = true ∨ fs.dir.dest = none) (hr : body.raises = false) :
+    ∃ fs', exec fs (saverTrace cfg fs body) = some fs' ∧
+      fs'.readDest = some (body.writes.map (·.1)).flatten ∧ fs'.dir.part = none ∧
+      (∀ i, fs'.inode? fs'.dir.dest = some i → i.tail = []) := by
+  obtain ⟨fs', hx, hi⟩ := saver_exec cfg fs body hh hp (by rcases hd with h | h; exact Or.inl h; exact Or.inr (Or.inl h))
+  refine ⟨fs', hx, ?_⟩
+  rw [allWrites_saverTrace] at hi
+  simp only [Inv, saverFinal, hr] at hi
+  obtain ⟨h1, h2, _, x, h4, h5, h6, _⟩ := hi
+  refine ⟨?_, h2, ?_⟩
+  · simp [FS.readDest, FS.inode?, h1, h4, Inode.cache, h5, h6]
+  · intro i hi'
+    simp [FS.inode?, h1, h4] at hi'
+    subst hi'; exact h6
+
+/-- a block that raises leaves the destination exactly as it was -/
+theorem raising_exit (cfg : Cfg) (fs : FS) (body : Body) (hwf : fs.WF) (hh : fs.hist = [])
+    (hp : fs.dir.part = none ∨ cfg.overwritePart = true) (hr : body.raises = true) :
+    ∃ fs', exec fs (saverTrace cfg fs body) = some fs' ∧ fs'.readDest = fs.readDest := by
+  obtain ⟨fs', hx, hi⟩ := saver_exec cfg fs body hh hp (Or.inr (Or.inr hr))
+  refine ⟨fs', hx, ?_⟩
+  simp only [Inv, saverFinal, hr] at hi
+  cases hm : cfg.rmPartOnExc <;> simp only [hm] at hi
+  · obtain ⟨h1, _, _, x, h4, _⟩ := hi
+    simp only [FS.readDest, h1, inode?_old fs fs' x hwf h4]
+  · obtain ⟨h1, _, _, x, h4, _⟩ := hi
+    simp only [FS.readDest, h1, inode?_old fs fs' x hwf h4]
+
+/-! ### necessity: dropping an ingredient of `SafeTrace` admits a bad crash outcome -/
+
+def fsOld : FS := ⟨[⟨[7], [], 0o644⟩], ⟨some 0, none⟩, [], none, 0o022⟩
+
+/-- without `fsync`: after the rename a power loss can leave an EMPTY destination -/
+theorem no_fsync_unsafe :
+    let t := [Ev.openPart true true 0o644, .write [1, 2] 0, .flush, .close, .renamePartDest]
+    SafeTrace t = false ∧ ((exec fsOld t).map fun fs => fs.powerDests.contains (some [])) = some true := by decide
+
+/-- renaming before the buffer is flushed: a process death right after the rename leaves an EMPTY destination -/
+theorem rename_before_flush_unsafe :
+    let t := [Ev.openPart true true 0o644, .write [1, 2] 0, .renamePartDest]
+    SafeTrace t = false ∧ (exec fsOld t).map FS.destAfterProcCrash = some (some []) := by decide
+
+/-- writing to the destination directly: a process death between truncation and write leaves it EMPTY,
+    one between two writes leaves it TRUNCATED -/
+theorem direct_write_unsafe :
+    let t := [Ev.truncDest, .writeDest [1], .writeDest [2]]
+    SafeTrace t = false ∧ (exec fsOld (t.take 1)).map FS.destAfterProcCrash = some (some []) ∧
+      (exec fsOld (t.take 2)).map FS.destAfterProcCrash = some (some [1]) := by decide
+
+/-- without `O_EXCL` a stale part file is re-used and the published content is a MIXTURE -/
+theorem no_excl_unsafe :
+    let fs0 : FS := ⟨[⟨[7], [], 0o644⟩, ⟨[9, 9], [], 0o640⟩], ⟨some 0, some 1⟩, [], none, 0o022⟩
+    let t := [Ev.openPart false true 0o644, .write [1, 2] 0, .flush, .fsync, .close, .renamePartDest]
+    SafeTrace t = false ∧ (exec fs0 t).map FS.readDest = some (some [9, 9, 1, 2]) := by decide
+
+/-- a write after the publication is visible at the destination before it is complete -/
+theorem write_after_publish_unsafe :
+    let t := [Ev.openPart true true 0o644, .write [1] 0, .flush, .fsync, .renamePartDest, .write [2] 1]
+    SafeTrace t = false ∧ allWrites t = [1, 2] ∧ (exec fsOld (t.take 5)).map FS.destAfterProcCrash = some (some [1]) := by decide
+
 end C04
